@@ -39,7 +39,7 @@ def jobs(tier, seed):
     return cachestep.step_jobs(tier, {"C03"}, "checks.c03") + cachestep.history_jobs(tier, {"C03"}, "checks.c03") + cachestep.prog_jobs(tier, seed, {"C03"}, "checks.c03")
 
 
-BUDGET = {"quick": None, "thorough": 20 * 60}
+BUDGET = {"quick": None, "thorough": 12 * 60}
 
 if __name__ == "__main__":
     from symx import runner
